@@ -51,6 +51,9 @@ PairForms(slot) == <<
     [f |-> "b", v |-> Bool(TRUE)], [f |-> "b", v |-> Bool(FALSE)],
     [f |-> "e", v |-> Err("#DIV/0!")], [f |-> "e", v |-> Err("#N/A")],
     [f |-> "d", v |-> Date(44000)], [f |-> "iso", v |-> Date(44000)],
+    [f |-> "d", v |-> DateT(44000, 9, 16)], [f |-> "iso", v |-> DateT(44000, 9, 16)],      \* a date with a time of day (13:30)
+    FC(<<Lit("_xlfn.CONCAT("), RD4, Lit(",\"x\")")>>, Blank),                \* a function Excel stores with its _xlfn. prefix, no cached value
+    FC(<<Lit("_xlfn.CONCAT("), RD4, Lit(",\"x\")")>>, Txt(<<111, 108, 100>>)),  \* ... and with a stale cached text
     FC(<<RD4, Lit("+"), NumTok(1)>>, Whole(99)),                          \* stale cached number
     FC(<<RData>>, Txt(<<99, 115>>)),                                       \* cached text (t="str")
     FC(<<RD4, Lit("+"), RData>>, Bool(TRUE)),                              \* cached boolean
